@@ -151,6 +151,7 @@ type World struct {
 	step  int
 	clock int // logical time: advances with every call into a node and every applied entry
 	seq   int
+	healSeq int
 	Trace []Action
 	Log   []string
 	keepLog bool
